@@ -342,13 +342,15 @@ func (cx *SpecCtx) eval(e Expr) sval {
 	case *EStr:
 		return sval{t: g.sc.strConst(x.Val), typ: types.Typ[types.String], kind: "val"}
 	case *EIdent:
-		if v, ok := cx.vars[x.Name]; ok {
-			return norm(v)
-		}
 		if cx.locals {
+			// inside the function body (loop invariants, hints) a name denotes the current value of the
+			// variable, also for parameters (which are mutable); old(x) gives a parameter's entry value
 			if v, ok := cx.lookupLocal(x.Name); ok {
 				return v
 			}
+		}
+		if v, ok := cx.vars[x.Name]; ok {
+			return norm(v)
 		}
 		// captured variable of a closure: content of the cell
 		if v, ok := cx.vars["&"+x.Name]; ok {
@@ -811,12 +813,15 @@ func (cx *SpecCtx) evalCall(x *ECall) sval {
 		if cx.old == nil {
 			cx.fail("old() not available here")
 		}
-		return cx.with(cx.old).eval(x.Args[0])
+		ocx := cx.with(cx.old)
+		ocx.locals = false
+		return ocx.asValue(ocx.eval(x.Args[0]))
 	case "pre":
 		if cx.pre == nil {
 			cx.fail("pre() only in loop invariants")
 		}
-		return cx.with(cx.pre).eval(x.Args[0])
+		pcx := cx.with(cx.pre)
+		return pcx.asValue(pcx.eval(x.Args[0]))
 	case "len":
 		v := arg(0)
 		if v.typ != nil {
@@ -867,6 +872,45 @@ func (cx *SpecCtx) evalCall(x *ECall) sval {
 	case "cap":
 		v := arg(0)
 		return sval{t: fmt.Sprintf("(s-cap %s)", v.t), kind: "int"}
+	case "addr": // addr(x): the reference of a struct location (e.g. an embedded struct), comparable with pointers
+		v := arg(0)
+		if v.kind == "loc" {
+			return sval{t: v.t, kind: "int"}
+		}
+		if v.typ != nil && deref(v.typ) != nil {
+			return sval{t: v.t, kind: "int"}
+		}
+		cx.fail("addr of a non-location %s", x.Args[0])
+	case "oldat": // oldat(s, p): like at(s, p) but reading the backing array as it was in the old state (s and p are evaluated in the current context)
+		if cx.old == nil {
+			cx.fail("oldat() not available here")
+		}
+		v := arg(0)
+		sl, ok := v.typ.Underlying().(*types.Slice)
+		if !ok {
+			cx.fail("oldat on non-slice")
+		}
+		if _, isS := isStruct(sl.Elem()); isS {
+			cx.fail("oldat on slice of structs")
+		}
+		pidx := cx.intTerm(x.Args[1])
+		return norm(sval{t: fmt.Sprintf("(select (select %s (s-arr %s)) %s)", g.get(cx.old, g.sc.elemComp(sl.Elem())), v.t, pidx), typ: sl.Elem(), kind: "val"})
+	case "at": // at(s, p): element of slice s's backing array at absolute index p (s[k] == at(s, s.off + k))
+		v := arg(0)
+		if v.typ == nil {
+			cx.fail("at on untyped value")
+		}
+		sl, ok := v.typ.Underlying().(*types.Slice)
+		if !ok {
+			cx.fail("at on non-slice")
+		}
+		pidx := cx.intTerm(x.Args[1])
+		if _, isS := isStruct(sl.Elem()); isS {
+			r, ax := g.sc.elemRef(sl.Elem(), fmt.Sprintf("(s-arr %s)", v.t), pidx)
+			cx.addAxioms(ax)
+			return sval{t: r, typ: sl.Elem(), kind: "loc"}
+		}
+		return norm(sval{t: fmt.Sprintf("(select (select %s (s-arr %s)) %s)", g.get(cx.st, g.sc.elemComp(sl.Elem())), v.t, pidx), typ: sl.Elem(), kind: "val"})
 	case "min", "max":
 		a, b := cx.unify(arg(0), arg(1))
 		f := "i" + x.Fun
@@ -912,10 +956,14 @@ func (cx *SpecCtx) evalCall(x *ECall) sval {
 			}
 		}
 		return sval{t: fmt.Sprintf("(>= %s %s)", t, oa), kind: "bool"}
-	case "allocated": // reference existed in the pre-state
+	case "allocated": // the value is a well-formed, allocated value of its type in the current state
 		v := arg(0)
 		oa := g.get(cx.st, "alloc")
-		return sval{t: fmt.Sprintf("(< %s %s)", v.t, oa), kind: "bool"}
+		if v.typ != nil {
+			cs := g.sc.valid(v.typ, v.t, oa, 0)
+			return sval{t: and(cs...), kind: "bool"}
+		}
+		return sval{t: fmt.Sprintf("(and (< %s %s) (=> (not (= %s 0)) %s))", v.t, oa, v.t, existedAt(v.t, oa)), kind: "bool"}
 	case "typeis": // typeis(x, T): dynamic type of interface x is T
 		v := arg(0)
 		tn, ok := x.Args[1].(*EIdent)
@@ -963,6 +1011,45 @@ func (cx *SpecCtx) evalCall(x *ECall) sval {
 				return sval{t: fmt.Sprintf("(to_real %s)", v.t), kind: "real"}
 			}
 		}
+	}
+	// uninterpreted spec function
+	if uf := cx.lookupUFunc(x.Fun); uf != nil {
+		if len(uf.Params) != len(x.Args) {
+			cx.fail("ufunc %s expects %d args", uf.Name, len(uf.Params))
+		}
+		var sorts, ts []string
+		for i, prm := range uf.Params {
+			pt := cx.resolveType(prm.Type)
+			v := cx.eval(x.Args[i])
+			if v.kind == "loc" {
+				v = cx.asValue(v)
+			}
+			if pt == nil {
+				sorts = append(sorts, "Int")
+			} else {
+				sorts = append(sorts, g.sc.sortOf(pt))
+			}
+			ts = append(ts, v.t)
+		}
+		rs, rk := "Int", "int"
+		var rt types.Type
+		switch uf.Result {
+		case "int", "mathint":
+		case "bool":
+			rs, rk = "Bool", "bool"
+		case "real":
+			rs, rk = "Real", "real"
+		default:
+			rt = cx.resolveType(uf.Result)
+			rs, rk = g.sc.sortOf(rt), "val"
+		}
+		name := q("uf:" + uf.Name)
+		g.sc.declare(name, fmt.Sprintf("(declare-fun %s (%s) %s)", name, strings.Join(sorts, " "), rs))
+		t := name
+		if len(ts) > 0 {
+			t = fmt.Sprintf("(%s %s)", name, strings.Join(ts, " "))
+		}
+		return norm(sval{t: t, typ: rt, kind: rk})
 	}
 	// predicate expansion
 	if cx.spec != nil {
@@ -1017,6 +1104,20 @@ func (cx *SpecCtx) stableTerm(sort, term string) string {
 		return term
 	}
 	return cx.g.defConst("st", sort, term)
+}
+
+func (cx *SpecCtx) lookupUFunc(name string) *UFunc {
+	if cx.spec != nil {
+		if u, ok := cx.spec.UFuncs[name]; ok {
+			return u
+		}
+	}
+	for _, sf := range cx.g.env.Specs {
+		if u, ok := sf.UFuncs[name]; ok {
+			return u
+		}
+	}
+	return nil
 }
 
 func (cx *SpecCtx) lookupPred(name string) (*Pred, bool) {
@@ -1109,6 +1210,32 @@ func (cx *SpecCtx) locations(e Expr) []location {
 		}
 		cx.fail("modifies %s: [*] on %s", e, base.typ)
 	case *ESel:
+		if c, ok := x.X.(*ECall); ok && c.Fun == "any" && len(c.Args) == 1 {
+			// any(T).f : field f of every object of struct type T
+			t := cx.resolveType(strings.Trim(c.Args[0].String(), "\""))
+			if key, _, _, ok := cx.ghostField(t, x.Field); ok {
+				return []location{{comp: key, pred: func(string) string { return "true" }}}
+			}
+			st, ok := isStruct(t)
+			if !ok {
+				cx.fail("modifies %s: not a struct type", e)
+			}
+			for i := 0; i < st.NumFields(); i++ {
+				if st.Field(i).Name() == x.Field {
+					if _, isS := isStruct(st.Field(i).Type()); isS {
+						var comps []string
+						g.sc.leafComps(st.Field(i).Type(), map[string]bool{}, &comps)
+						var out []location
+						for _, k := range comps {
+							out = append(out, location{comp: k, pred: func(string) string { return "true" }})
+						}
+						return out
+					}
+					return []location{{comp: g.sc.fieldCompReg(t, i), pred: func(string) string { return "true" }}}
+				}
+			}
+			cx.fail("modifies %s: no such field", e)
+		}
 		base := cx.eval(x.X)
 		ref, st, isLoc := cx.structBase(base)
 		if !isLoc {
